@@ -701,11 +701,11 @@ func genTimed(tier string, seed int64, only string) []*Case {
 		cutP := func() string {
 			switch r.Intn(4) {
 			case 0:
-				return "cancel:" + itoa(r.Intn(span) + d/2)
+				return "cancel:" + itoa(r.Intn(span)+d/2)
 			case 1:
 				return "in:" + itoa(r.Intn(periods+1))
 			}
-			return "out:" + itoa(r.Intn(span) + d/2)
+			return "out:" + itoa(r.Intn(span)+d/2)
 		}
 		add("Interval", "d", itoa(d), "slow", pickSlow(d, periods), "cut", cutP())
 		// IntervalWithInitial: any initial >= 0 against any period (since /repo 6a7ef90 the ticker is
